@@ -211,8 +211,8 @@ if ok:
         for fn in dr["funcs"]:
             for v in dr["values"]:
                 try:
-                    getattr(mod, fn)(v)
-                    out = {"out": "ok"}
+                    rv = getattr(mod, fn)(v)
+                    out = {"out": "ok", "ret": repr(rv)[:200]}
                 except BaseException as exc:
                     out = describe_exc(exc)
                 out["f"] = fn
